@@ -86,11 +86,21 @@ def classify(frm, to, steps, h):
     return tags
 
 
+CONFIG_STYLE = ["default"]
+
+
 class Recorder:
     """duck-typed filter: logs every call, returns its inputs"""
 
     def __init__(self, h, control_size=0):
-        self.config = SimpleNamespace(max_dt_sec=h)
+        # a REAL Config, like a compiled filter carries; which of the other fields are away from their defaults is decided per step
+        # size (the step logic may read nothing but max_dt_sec from it)
+        from formak import python as fpy
+        if CONFIG_STYLE[0] == "all-non-default":
+            self.config = fpy.Config(max_dt_sec=h, extra_validation=True, innovation_filtering=None, common_subexpression_elimination=False,
+                                     python_modules=("numpy", "math"))
+        else:
+            self.config = fpy.Config(max_dt_sec=h)
         self.control_size = control_size
         self.log = []
 
@@ -127,6 +137,8 @@ def cases(tier, seed):
     for h in HS_ALL:
         for t0 in T0_ALL + ([65536.0] if tier == "thorough" else []):
             yield {"runtime": "py", "h": h, "t0": t0}
+    for h in HS_ALL[:3]:
+        yield {"runtime": "py", "h": h, "t0": T0_ALL[1], "config": "all-non-default"}
     from fv.props import c10_cpp
     yield from c10_cpp.cases(tier, seed)
 
@@ -136,6 +148,7 @@ def eval_case(case):
         from fv.props import c10_cpp
         return c10_cpp.eval_case(case)
     h, t0 = case["h"], case["t0"]
+    CONFIG_STYLE[0] = case.get("config", "default")
     if "tick" in case:  # replay one tick
         held, a, b = case["tick"]
         s1, s2, new = py_tick_moves(h, held, a, b)
